@@ -264,8 +264,24 @@ impl Runner<'_> {
                         cands.push((*t, *id));
                     }
                 }
-                if !cands.is_empty() {
-                    let (t, id) = cands[which % cands.len()];
+                if kind == "index_packs" {
+                    // every pack the which-th index file lists disappears: that index file becomes completely stale
+                    let idxs: Vec<_> = map.iter().filter(|(k, _)| k.0 == 1).collect();
+                    if !idxs.is_empty() {
+                        let ((_, iid), bytes) = idxs[which % idxs.len()];
+                        if let Some(ix) = crate::abs::parse_index(&self.w.rk, *iid, bytes) {
+                            for p in &ix.packs {
+                                if map.contains_key(&(4, p.id)) {
+                                    cands.push((4, p.id));
+                                }
+                            }
+                        }
+                    }
+                } else if !cands.is_empty() {
+                    let c = cands[which % cands.len()];
+                    cands = vec![c];
+                }
+                for (t, id) in cands {
                     _ = self.w.store.del_raw(crate::store::tfrom(t), &id);
                     _ = self.w.shadow.remove(&(t, id));
                     let kindc = match t { 4 => 'p', 1 => 'i', _ => 's' };
